@@ -346,8 +346,11 @@ class Parser:
                 self.next()
         if self.accept(";"):
             return None
-        body = self.parse_block()
-        return dict(name=name, params=params, ret=ret, body=body, line=line)
+        # bodies are parsed LAZILY (`body_of`): only the functions that are translated must lie in the subset
+        start = self.i
+        self.skip_balanced("{", "}")
+        toks = self.t[start:self.i] + [("eof", "", self.t[self.i - 1][2])]
+        return dict(name=name, params=params, ret=ret, body=None, body_toks=toks, fname=self.fname, line=line)
 
     # ---- statements
     def parse_block(self):
@@ -652,6 +655,12 @@ class Parser:
                 return ("struct", segs, fields)
             return ("path", segs, generics)
         self.err("expression outside the translated subset")
+
+
+def body_of(f):
+    if f["body"] is None:
+        f["body"] = Parser(f["body_toks"], f["fname"]).parse_block()
+    return f["body"]
 
 
 def parse_source(path):
@@ -1370,7 +1379,7 @@ def translate_mem():
             seen.add(name)
             prof = MemProfile(target)
             em = Emitter(prof, f"{rel}:{f['line']} ({name})")
-            body = em.block_value(f["body"], [])
+            body = em.block_value(body_of(f), [])
             params = [p for p in MEM_PARAM_ORDER if p in prof.used]
             sig = " ".join(f"({p} : {MEM_PARAM_TYPES[p]})" for p in params)
             out.append(f"/-- `{rel}:{f['line']}`  impl MemoryEstimator for `{target}` -/\ndef est{name} {sig} : Option Nat := do\n"
@@ -1463,6 +1472,8 @@ class PureProfile(BaseProfile):
             return "Policy." + segs[1].lower()
         if segs[0] == "Ordering" and len(segs) == 2:
             return "()"
+        if segs[-1] == "UNIX_EPOCH":
+            return "()"
         return None
 
     def ctor(self, segs):
@@ -1496,7 +1507,7 @@ class PureProfile(BaseProfile):
         if k == "bin":
             return self.is_float(e[2]) or self.is_float(e[3])
         if k == "mcall":
-            return e[2] in ("as_secs_f64",) or (e[2] in ("min", "max", "powf") and self.is_float(e[1]))
+            return e[2] in ("as_secs_f64", "powf") or (e[2] in ("min", "max") and self.is_float(e[1]))
         if k in ("if", "iflet"):
             b = e[2] if k == "if" else e[3]
             return b[2] is not None and self.is_float(b[2])
@@ -1519,9 +1530,15 @@ class PureProfile(BaseProfile):
             return f"({a} / {b})"
         return super().binop(op, a, b, e, em)
 
+    TUPLE_FIELDS = {"0": "val", "2": "hits"}
+
     def field(self, recv, name, em, env):
         if name in self.FIELDS:
             return "(" + em.expr(recv, env) + ")." + self.FIELDS[name]
+        if name in self.TUPLE_FIELDS:          # the async entry is the tuple (value, unix seconds of the store, frequency)
+            return "(" + em.expr(recv, env) + ")." + self.TUPLE_FIELDS[name]
+        if name == "1":
+            return "(RustLite.tsSecs " + em.expr(recv, env) + ")"
         return None
 
     def struct(self, segs, fields, em, env):
@@ -1531,6 +1548,9 @@ class PureProfile(BaseProfile):
         name = segs[-1]
         if name in self.fns and not self.fns[name]["mut_idx"]:
             return "(" + self.fn_call(name, [em.expr(a, env) for a in args]) + ")"
+        if segs[-2:] == ["SystemTime", "now"] and not args:
+            self.uses_clock = True
+            return "clock.now"
         return None
 
     def method(self, recv, name, generics, args, em, env):
@@ -1562,6 +1582,13 @@ class PureProfile(BaseProfile):
             return f"(A.min {R()} {A_(0)})"
         if name == "max" and len(args) == 1 and self.is_float(recv):
             return f"(A.max {R()} {A_(0)})"
+        if name in ("duration_since", "unwrap") :
+            return R()
+        if name == "saturating_sub" and len(args) == 1:
+            return f"(RustLite.ssub {R()} {A_(0)})"
+        if name == "powf" and len(args) == 1:
+            self.uses_float = True
+            return f"(A.powf {R()} {A_(0)})"
         if name == "saturating_add" and len(args) == 1:
             return f"(RustLite.saturatingAddU64 {R()} {A_(0)})"
         if name == "to_lowercase" and not args:
@@ -1654,6 +1681,9 @@ UTIL_FILES = [
     ("Stats", "cachelito-core/src/stats.rs", "RustLite.StatsCell", {"self.hits": "atomic", "self.misses": "atomic"},
      ["record_hit", "record_miss", "hits", "misses", "total_accesses", "hit_rate", "miss_rate", "reset"]),
     ("Policy", "cachelito-core/src/eviction_policy.rs", None, {}, ["is_valid", "from"]),
+    ("Async", "cachelito-core/src/async_global_cache.rs", "RustLite.AsyncCache K V F",
+     {"self.cache": "map", "self.order": "deque", "self.frequency_weight": "optf64"},
+     ["find_min_frequency_key", "find_arc_eviction_key", "find_tlru_eviction_key"]),
 ]
 
 
@@ -1694,6 +1724,7 @@ def translate_utils(module):
                 sig.append(f"({ident(pn)} : {lt})")
             prof = PureProfile(kinds, table)
             em = Emitter(prof, f"{rel}:{f['line']} ({name})")
+            body_of(f)
             muts = [f["params"][i][0] for i in table[name]["mut_idx"]]
             # interior mutability: `&self` methods that mutate a cell of self return the new self
             if "self" in kinds and "self" not in muts and "self" in em.assigned(f["body"], ["self"] + [p[0] for p in f["params"]]):
